@@ -4,7 +4,7 @@
 WT=$1; PATCH=$2; TIER=$3; shift 3
 git -C $WT checkout -q -- . && git -C $WT apply $PATCH || { echo "patch does not apply"; exit 2; }
 for pid in "$@"; do
-  out=/tmp/seedtest-$(basename $(dirname $PATCH))-$pid.log
+  out=/tmp/seedtest-$(basename $WT)-$(basename $(dirname $PATCH))-$pid.log
   VERIF_REPO=$WT timeout 3000 python3 /verif/bin/check.py $pid --tier $TIER > $out 2>&1
   echo "$pid rc=$? $(grep -m1 VIOLATION $out) $(grep -m1 'formula .* is false' $out | cut -c1-120)"
 done
